@@ -222,13 +222,14 @@ Fixpoint subp_pat (sl : list slice) (p : pattern) : pattern :=
   | SlFull :: sr, x :: r => x :: subp_pat sr r
   | SlIndex _ :: sr, _ :: r => subp_pat sr r
   | SlPair _ _ :: sr, _ :: r => None :: subp_pat sr r
+  | SlCPair a b :: sr, _ :: r => Some (szw (b - a)) :: subp_pat sr r   (* size_t(de_ice(last) - de_ice(first)), fix 4c4e37b *)
   | _, _ => []
   end.
 Fixpoint subp_vals (t : ity) (sl : list slice) (xs : list Z) : option (list Z) :=
   match sl, xs with
   | SlFull :: sr, x :: r => do v <- subp_vals t sr r; Some (x :: v)
   | SlIndex _ :: sr, _ :: r => subp_vals t sr r
-  | SlPair a b :: sr, _ :: r =>
+  | SlPair a b :: sr, _ :: r | SlCPair a b :: sr, _ :: r =>
       do d <- aop t (cast t b - cast t a);
       do v <- subp_vals t sr r;
       Some (cast t d :: v)
@@ -274,6 +275,14 @@ Definition sp_sub_d (s : spanv) (o : Z) (c : option Z) : res spanv :=
 (* operator[](idx): TETL_PRECONDITION(idx < size()), then data()[idx] *)
 Definition sp_index (s : spanv) (i : Z) : res Z :=
   if i <? s_size s then Ok (s_off s + i) else Contract.
+
+(* size_bytes(): size() * sizeof(element_type), in size_t *)
+Definition sp_size_bytes (esz : Z) (s : spanv) : Z := szw (s_size s * esz).
+(* as_bytes(s) / as_writable_bytes(s): {reinterpret_cast<byte*>(s.data()), s.size_bytes()} as
+   span<byte, N == dynamic_extent ? dynamic_extent : sizeof(T) * N>; offsets now count bytes *)
+Definition sp_as_bytes (esz : Z) (s : spanv) : spanv :=
+  mk_span (match s_ext s with Some n => Some (szw (esz * n)) | None => None end)
+          (s_off s * esz) (sp_size_bytes esz s).
 
 (* the elements a window designates in the underlying sequence *)
 Definition window {A} (buf : list A) (off len : Z) : list A :=
